@@ -273,9 +273,18 @@ class _Table:
         if cfg['boards'] is None:
             settings = None          # the server deals 100 random boards itself
         elif settings is None:
-            settings = [BoardSetting(hands=make_hands(dl), dealer=Player(d + 1), vul=Vul(v + 1),
+            def hands_of(j, dl):
+                if j % 3 != 1:
+                    return make_hands(dl)
+                # a Hands object made for another deal (the same cards turned by a
+                # seat) whose four seat attributes were assigned afterwards - the
+                # other table of a match prepared from this table's object
+                h = make_hands([dl[(q_ + 1) % 4] for q_ in range(4)])
+                h.north, h.east, h.south, h.west = [{card(c) for c in dl[q_]} for q_ in range(4)]
+                return h
+            settings = [BoardSetting(hands=hands_of(j_, dl), dealer=Player(d + 1), vul=Vul(v + 1),
                                      board_id=bid_, dda=dda)
-                        for (dl, d, v, bid_, dda) in cfg['boards']]
+                        for j_, (dl, d, v, bid_, dda) in enumerate(cfg['boards'])]
         self.settings = settings
         port, outpath = self.port, self.outpath
 
